@@ -434,7 +434,7 @@ fn main() {
     }
     let base_seed = env_u64("VERIF_SEED", 0) ^ 0xC03;
     // the last tenth (extra runs, so that the earlier ones keep their configurations): Runner runs whose HOOK CHANGES THE
-    // E-GRAPH - it adds an isolated one-slot leaf in every iteration (no rule's left side matches a lone `var`, so saturation
+    // E-GRAPH - it adds an isolated number literal `1000 + k` in iteration k (no left side matches a lone leaf, so saturation
     // is not affected).  What the report and the limit checks say must be true of the e-graph as the hook left it (C15n).
     for run in 0..runs + runs / 10 {
         let hook_mut = run >= runs;
@@ -511,7 +511,7 @@ fn main() {
                     let mut dry: Runner<A, ConstFold, IterFp, String> = Runner::new(ConstFold).with_egraph(eg_dry).with_expr(&start)
                         .with_iter_limit(iter_limit).with_node_limit(100_000)
                         .with_hook(move |r| {
-                            if hook_mut { let k = r.iterations.len(); r.egraph.add_expr(RecExpr::parse(&format!("(var $hook{k})")).unwrap()); }
+                            if hook_mut { let k = r.iterations.len(); r.egraph.add_expr(RecExpr::parse(&format!("{}", 1000 + k)).unwrap()); }
                             if r.egraph.total_number_of_nodes() <= 80 { Ok(()) } else { Err("big".to_string()) } });
                     let rws_dry: Vec<Rewrite<A, ConstFold>> = rules2.iter().map(mk_rule).collect();
                     let mut counts = vec![dry.egraph.total_number_of_nodes()];
@@ -558,7 +558,7 @@ fn main() {
                     if hook_mut {
                         fp_log2.borrow_mut().push(fingerprint(&r.egraph, &tracked_h));
                         let k = r.iterations.len();
-                        r.egraph.add_expr(RecExpr::parse(&format!("(var $hook{k})")).unwrap());
+                        r.egraph.add_expr(RecExpr::parse(&format!("{}", 1000 + k)).unwrap());
                     }
                     let mut l = hook_log2.borrow_mut();
                     let ok = Some(l.len()) != hook_fail_at && r.egraph.total_number_of_nodes() <= 80;
